@@ -3,7 +3,7 @@
 ID=$1; PROP=$2; TIER=${3:-quick}
 cd /repo && [ -z "$(git status --porcelain)" ] || { echo "/repo is not clean"; exit 2; }
 git -C /repo apply /verif/seeded/$ID/patch.diff || exit 2
-cd /verif && ./check $PROP $TIER > /tmp/seedrun-$ID-$PROP.log 2>&1; RC=$?
+cd /verif && VERIF_EVIDENCE_DIR=/verif/.work/evidence-seeds ./check $PROP $TIER > /tmp/seedrun-$ID-$PROP.log 2>&1; RC=$?
 git -C /repo checkout -- .
 grep -E "^VIOLATION|^KNOWN|quick:|thorough:|INCONCLUSIVE" /tmp/seedrun-$ID-$PROP.log | cut -c1-260
 echo "seed=$ID check=$PROP tier=$TIER rc=$RC"
